@@ -9,7 +9,7 @@
 
 use crate::alloc::{self, Window};
 use crate::corpus;
-use crate::drive::{self, Ctor, Outcome, PK};
+use crate::drive::{self, Ctor, Outcome};
 use crate::json::J;
 use crate::prng::{Rng, H};
 use crate::src::{Policy, Src};
@@ -81,7 +81,7 @@ impl Monitor for C05 {
         rep.inc("inputs");
         rep.inc(&format!("class:{}", input.class.name()));
         rep.inc(&format!("parser:{}", pk.name()));
-        let (policy, ctor) = match rng.below(4) {
+        let (policy, ctor) = match rng.below(5) {
             0 => (Policy::Fixed(1), Ctor::Chunk(1)),
             1 => (
                 Policy::Random {
@@ -90,6 +90,7 @@ impl Monitor for C05 {
                 },
                 Ctor::Chunk(*rng.pick(&[2usize, 7, 8, 9, 16, 64])),
             ),
+            2 => (Policy::OneShot, drive::random_ctor(rng)),
             _ => (Policy::OneShot, Ctor::Chunk(16384)),
         };
         let src = Src::new(data.clone(), policy.clone(), idx);
